@@ -289,7 +289,8 @@ class C12(Check):
         change another object's listing."""
         # ... (c) subclass entries of DIFFERENT classes must not be crossed (class of one with the low byte of the other)
         ids = [0x00040004, 0x04000004, 0x040c0004, 0x00000004, 0x0c040004, 0x04040404, 0x01090004, 0x04090004, 0x010c0004, 0x03010004, 0x030c0004, 0x04010004,
-               0x04ff0004, 0x0400fffc, 0x01ff0004, 0xffff0004, 0x04fffffc]      # the last subclass of a class (0x..ff), the last code
+               0x04ff0004, 0x0400fffc, 0x01ff0004, 0xffff0004, 0x04fffffc,      # the last subclass of a class (0x..ff), the last code
+               0x0400fffd, 0x040cfffe, 0x04ffffff, 0xffffffff, 0x00000003]      # the last code of a subclass / class with the START, END, ALL qualifier
         recs = [B.rec(100 + i, (i, 0, 0, 0), 1, e) for i, e in enumerate(ids)]
         blob = B.v2([(1, 10, 'A')], 0, recs)
         for C in ([], [4], [0], [0x40c], [0x404], [4, 0x40c], [0xff], [1, 4], [-1], [-252], [-257, 4]):
